@@ -59,6 +59,10 @@ func hasRefs(t types.Type, depth int) bool {
 func (x *Exec) memFrame(ftype *ast.FuncType, fd *ast.FuncDecl, body *ast.BlockStmt) {
 	info := x.info
 	for _, pname := range x.ct.NoWrite {
+		contractName := pname // obligation names keep the name the contract uses
+		if nw, ok := x.aliases[pname]; ok {
+			pname = nw
+		}
 		var root types.Object
 		find := func(fl *ast.FieldList) {
 			if fl == nil {
@@ -368,12 +372,12 @@ func (x *Exec) memFrame(ftype *ast.FuncType, fd *ast.FuncDecl, body *ast.BlockSt
 		})
 		_ = token.NoPos
 		if len(offenders) == 0 {
-			x.obls = append(x.obls, &Obligation{Name: x.fullKey + "#memframe:" + pname, Kind: "frame", Func: x.fullKey, PC: tTrue, Goal: tTrue, syntactic: true,
+			x.obls = append(x.obls, &Obligation{Name: x.fullKey + "#memframe:" + contractName, Kind: "frame", Func: x.fullKey, PC: tTrue, Goal: tTrue, syntactic: true,
 				Text: fmt.Sprintf("no in-place write to a backing array reachable from %s (%d write sites examined)", pname, sites)})
 			continue
 		}
 		for i, o := range offenders {
-			x.obls = append(x.obls, &Obligation{Name: fmt.Sprintf("%s#memframe:%s:%d", x.fullKey, pname, i), Kind: "frame", Func: x.fullKey, PC: tTrue, Goal: tFalse, syntactic: true,
+			x.obls = append(x.obls, &Obligation{Name: fmt.Sprintf("%s#memframe:%s:%d", x.fullKey, contractName, i), Kind: "frame", Func: x.fullKey, PC: tTrue, Goal: tFalse, syntactic: true,
 				Text: fmt.Sprintf("in-place write to memory reachable from %s: %s (whoever else holds that memory would see it change)", pname, o)})
 		}
 	}
